@@ -44,6 +44,12 @@ type fakeORGB struct {
 	port     int
 	ctrlName string
 	names    []string
+	// others: controllers the server lists BEFORE the keyboard (a mainboard, a mouse, a keyboard without hidraw location ...); the
+	// keyboard's controller index is len(others); misaddressed counts UpdateLEDs packets sent to any other index
+	others       []orgbOther
+	misaddressed int
+	// delay: the server answers controller queries (count, data) this late - a busy or slow OpenRGB daemon
+	delay time.Duration
 
 	mu     sync.Mutex
 	cond   *sync.Cond
@@ -78,28 +84,47 @@ func orgbString(s string) []byte {
 func u16(v int) []byte { b := make([]byte, 2); binary.LittleEndian.PutUint16(b, uint16(v)); return b }
 func u32(v int) []byte { b := make([]byte, 4); binary.LittleEndian.PutUint32(b, uint32(v)); return b }
 
+type orgbOther struct {
+	Type     int    `json:"type"` // 0 motherboard, 1 DRAM, 2 GPU, 6 mouse, 5 keyboard ...
+	Name     string `json:"name"`
+	Location string `json:"location"`
+	Leds     int    `json:"leds"`
+}
+
 // controller data block, protocol version 0 (what openrgb-go's readDevice parses)
-func (s *fakeORGB) controllerData() []byte {
+func orgbControllerData(typ int, name, location string, leds []string) []byte {
 	var p []byte
-	p = append(p, u32(5)...) // type: keyboard
-	p = append(p, orgbString(s.ctrlName)...)
+	p = append(p, u32(typ)...)
+	p = append(p, orgbString(name)...)
 	p = append(p, orgbString("verif fake controller")...)
 	p = append(p, orgbString("1.0")...)
 	p = append(p, orgbString("0000")...)
-	p = append(p, orgbString("HID: /dev/hidraw0")...)
+	p = append(p, orgbString(location)...)
 	p = append(p, u16(0)...) // modes
 	p = append(p, u32(0)...) // active mode
 	p = append(p, u16(0)...) // zones
-	p = append(p, u16(len(s.names))...)
-	for _, n := range s.names {
+	p = append(p, u16(len(leds))...)
+	for _, n := range leds {
 		p = append(p, orgbString(n)...)
 		p = append(p, 0, 0, 0, 0)
 	}
-	p = append(p, u16(len(s.names))...)
-	for range s.names {
+	p = append(p, u16(len(leds))...)
+	for range leds {
 		p = append(p, 0, 0, 0, 0)
 	}
 	return append(u32(len(p)+4), p...)
+}
+
+func (s *fakeORGB) controllerData(dev int) []byte {
+	if dev >= 0 && dev < len(s.others) {
+		o := s.others[dev]
+		leds := make([]string, o.Leds)
+		for i := range leds {
+			leds[i] = fmt.Sprintf("LED %d", i)
+		}
+		return orgbControllerData(o.Type, o.Name, o.Location, leds)
+	}
+	return orgbControllerData(5, s.ctrlName, "HID: /dev/hidraw0", s.names) // type: keyboard
 }
 
 func orgbPacket(dev, cmd int, body []byte) []byte {
@@ -179,15 +204,21 @@ func (s *fakeORGB) serve(c net.Conn) {
 		switch cmd {
 		case 50: // set client name
 		case 0: // controller count
-			c.Write(orgbPacket(0, 0, u32(1)))
+			time.Sleep(s.delay)
+			c.Write(orgbPacket(0, 0, u32(len(s.others)+1)))
 		case 1: // controller data
-			if dev != 0 {
-				s.fail(fmt.Sprintf("controller data requested for device %d", dev))
+			if dev < 0 || dev > len(s.others) {
+				s.fail(fmt.Sprintf("controller data requested for device %d of %d", dev, len(s.others)+1))
 			}
-			c.Write(orgbPacket(dev, 1, s.controllerData()))
+			time.Sleep(s.delay)
+			c.Write(orgbPacket(dev, 1, s.controllerData(dev)))
 		case 1050: // UpdateLEDs: u32 size | u16 count | count x (r g b pad); openrgb-go fills only the low bytes of size/count
-			if dev != 0 {
-				s.fail(fmt.Sprintf("UpdateLEDs for device %d", dev))
+			if dev != len(s.others) {
+				s.fail(fmt.Sprintf("UpdateLEDs addressed to controller %d; the keyboard is controller %d", dev, len(s.others)))
+				s.mu.Lock()
+				s.misaddressed++
+				s.mu.Unlock()
+				continue
 			}
 			if n < 6 || (n-6)%4 != 0 {
 				s.fail(fmt.Sprintf("UpdateLEDs with body length %d", n))
@@ -262,6 +293,8 @@ type jLedCase struct {
 	jCase
 	Leds []string `json:"leds"` // LED names reported by the controller, in order (the stamp LED is appended)
 	Ctrl string   `json:"ctrl"` // controller name
+	// Others: controllers listed by the server before the keyboard
+	Others []orgbOther `json:"others"`
 }
 
 type jLedStep struct {
@@ -287,6 +320,7 @@ type jLedResult struct {
 	NoStamp   bool       `json:"no_stamp"` // frames were selected by settling, not by the stamp
 	Err       string     `json:"err"`
 	SrvErrs   []string   `json:"server_errors"`
+	Misaddr   int        `json:"misaddressed"` // UpdateLEDs packets addressed to a controller that is not the keyboard
 }
 
 func buildLedInputDevice(abs []jAbs) input.Device {
@@ -389,6 +423,7 @@ func runLedCase(c jLedCase) (res jLedResult) {
 		res.Err = "fake OpenRGB server: " + err.Error()
 		return
 	}
+	srv.others = c.Others
 	defer srv.close()
 	cfg := buildConfig(c.Cfg)
 	midiOut := make(chan midi.Event, 8192)
@@ -496,6 +531,9 @@ func runLedCase(c jLedCase) (res jLedResult) {
 	}, 3*time.Second)
 	var last *orgbFrame
 	res.Frames, last, res.Conns, res.SrvErrs = srv.snapshot()
+	srv.mu.Lock()
+	res.Misaddr = srv.misaddressed
+	srv.mu.Unlock()
 	res.FinalRed = red != nil && last != nil && red.Seq == last.Seq
 	if last != nil && len(last.Colors) == rig.nLeds+1 {
 		res.Final = append([]int{}, last.Colors[:rig.nLeds]...)
